@@ -23,6 +23,8 @@ type guard struct {
 	passBlk *ssa.BasicBlock // successor taken when the check passes
 	// notCovering: lifted from a helper and known not to gate every accepting exit
 	notCovering bool
+	// inner: for a guard lifted from a helper, the helper's own branch (loop context of the check)
+	inner *ssa.If
 }
 
 func (g guard) key() string { return g.decider + "(" + strings.Join(g.fields, ",") + ")" }
@@ -773,7 +775,10 @@ func liftedGuards(fn *ssa.Function, depth int) []guard {
 				fields = append(fields, k)
 			}
 			sort.Strings(fields)
-			lg := guard{fn: fn, iff: G.iff, ret: G.ret, decider: S.decider, fields: fields, cond: S.cond, pos: S.pos, passBlk: G.passBlk}
+			lg := guard{fn: fn, iff: G.iff, ret: G.ret, decider: S.decider, fields: fields, cond: S.cond, pos: S.pos, passBlk: G.passBlk, inner: S.iff}
+			if S.inner != nil {
+				lg.inner = S.inner
+			}
 			if !(coverG && guardCoversAccepts(S)) {
 				lg.decider = S.decider
 				lg.notCovering = true
